@@ -208,6 +208,15 @@ def _native_transform_batched(ctx):
         ref = t.apply(x)
         for b in range(1, 10):
             ctx.check_true('n=%d,b=%d/batched==unbatched' % (n, b), np.array_equal(t.apply(x, batch_size=b), ref))
+        # inputs that are not float64 (integer pixel indices as the image warps pass them, float32 data)
+        for name, xi in (('int-grid', rs.randint(0, 9, size=(n, 2))), ('float32', rs.randn(n, 2).astype(np.float32))):
+            refi = t.apply(xi)
+            for b in (1, 2, 5, 20):
+                got = t.apply(xi, batch_size=b)
+                ctx.check_true('n=%d,b=%d,%s/batched==unbatched' % (n, b, name), got.dtype == refi.dtype and np.array_equal(got, refi),
+                               'max abs diff %g, dtype %s vs %s' % (np.abs(np.asarray(got, dtype=float) - refi).max(), got.dtype, refi.dtype))
+            pc = S.PointCloud(xi.astype(float))
+            ctx.check_true('n=%d,%s/pointcloud-batched==unbatched' % (n, name), np.array_equal(t.apply(pc, batch_size=2).points, t.apply(pc).points))
 
 
 def _pwa_and_points(rs, pattern):
